@@ -369,13 +369,13 @@ func (s *server) Attach(server *types.HttpServer, opts any) {
 
 // Captures upgrade requests for a http.Handler, Need to handle server shutdown disconnecting client connections.
 func (s *server) ServeHTTP(w http.ResponseWriter, r *http.Request) {
-	if !websocket.IsWebSocketUpgrade(r) {
-		server_log.Debug(`intercepting request for path "%s"`, utils.CleanPath(r.URL.Path))
-		s.HandleRequest(types.NewHttpContext(w, r))
-	} else if s.Opts().Transports().Has(transports.WEBSOCKET) {
+	if websocket.IsWebSocketUpgrade(r) && s.Opts().Transports().Has(transports.WEBSOCKET) {
 		s.HandleUpgrade(types.NewHttpContext(w, r))
 	} else {
-		http.Error(w, "Not Implemented", http.StatusNotImplemented)
+		// with websocket disabled the Upgrade header means nothing: the request
+		// is verified like any other (transport=websocket is an unknown transport)
+		server_log.Debug(`intercepting request for path "%s"`, utils.CleanPath(r.URL.Path))
+		s.HandleRequest(types.NewHttpContext(w, r))
 	}
 }
 
